@@ -27,6 +27,10 @@ def pack(events, extra_factor=1):
     return "".join(seq)
 
 
+def use_ln_cls(cls):
+    return cls != "no_lnobj"
+
+
 def gen_lines(rng, cls="plain", max_measures=6):
     layout = rng.choice(list(LAYOUTS))
     lanes = LAYOUTS[layout]
@@ -38,6 +42,8 @@ def gen_lines(rng, cls="plain", max_measures=6):
         # ids are written the same way in the header and in the data; letters may be lower case
         wav_ids = [w.lower() if rng.random() < 0.7 else w for w in wav_ids]
         wav_ids = list(dict.fromkeys(w for w in wav_ids if w.upper() != lnobj.upper())) or ["01"]
+    if not use_ln_cls(cls) and rng.random() < 0.6:
+        wav_ids.append("ZZ")  # without #LNOBJ the last id is an ordinary keysound
     undefined_ids = [i for i in ("02", "XY", "7K") if i not in wav_ids and i != lnobj]
     use_ln = cls != "no_lnobj"
     header = [("PLAYER", "1"), ("GENRE", rng.choice(["Trance", "J-POP", "a b c"])),
